@@ -1,1 +1,780 @@
-// Correspondence suites for property C17. Each suite is a #[test] fn named verif_c17_<suite>.
+// Correspondence suites for property C17 (byte-stream parsers). Each suite is a #[test] fn named
+// verif_c17_<suite>.
+//
+// Upstream chunk lists: comma-separated, `-` = empty chunk, `!` = upstream error, `.` = no item.
+//   c17.records <single|batch> <ty> <chunks>   ty: r1..r8 (N-byte record, invalid iff first byte = ff), fp31, fp32
+//   c17.ld <chunks>                             LengthDelimitedStream (record invalid iff first byte = ff)
+//   c17.buffered <sz> <chunks>                  BufferedBytesStream
+//   c17.slice <N> <n>   c17.streamchunks <N> <items>   c17.unpack <N> <M> <F|P<len>> <datalen>
+//   c17.flatten <lists> c17.fixed <len> <n>
+// Streams are polled by hand (noop waker) until the first error or the end of the stream.
+use std::{
+    future::Future,
+    io,
+    num::NonZeroUsize,
+    pin::Pin,
+    task::{Context, Poll},
+};
+
+use bytes::Bytes;
+use futures::{Stream, stream};
+use generic_array::{ArrayLength, GenericArray};
+use typenum::{U1, U2, U3, U4, U5, U6, U7, U8};
+
+use super::proto::*;
+use crate::{
+    error::{BoxError, Error},
+    ff::{Fp31, Fp32BitPrime, Serializable, U128Conversions},
+    helpers::{
+        BufferedBytesStream, LengthDelimitedStream, RecordsStream, SingleRecordStream,
+        stream::{ChunkData, FixedLength, TryFlattenItersExt, process_slice_by_chunks, process_stream_by_chunks},
+    },
+};
+
+#[derive(Debug)]
+struct BadRec;
+impl std::fmt::Display for BadRec {
+    fn fmt(&self, f: &mut std::fmt::Formatter<'_>) -> std::fmt::Result {
+        write!(f, "verif-bad-record")
+    }
+}
+impl std::error::Error for BadRec {}
+
+/// Fixed-size test record: any N bytes, invalid iff the first byte is 0xff.
+#[derive(Debug, Clone, PartialEq, Eq)]
+struct Rec<N: ArrayLength>(GenericArray<u8, N>);
+
+impl<N: ArrayLength> Serializable for Rec<N> {
+    type Size = N;
+    type DeserializationError = BadRec;
+
+    fn serialize(&self, buf: &mut GenericArray<u8, Self::Size>) {
+        buf.copy_from_slice(&self.0);
+    }
+
+    fn deserialize(buf: &GenericArray<u8, Self::Size>) -> Result<Self, Self::DeserializationError> {
+        if buf[0] == 0xff { Err(BadRec) } else { Ok(Rec(buf.clone())) }
+    }
+}
+
+trait RecHex {
+    fn rec_hex(&self) -> String;
+}
+impl<N: ArrayLength> RecHex for Rec<N> {
+    fn rec_hex(&self) -> String {
+        hex(&self.0)
+    }
+}
+impl RecHex for Fp31 {
+    fn rec_hex(&self) -> String {
+        hex(&[self.as_u128() as u8])
+    }
+}
+impl RecHex for Fp32BitPrime {
+    fn rec_hex(&self) -> String {
+        hex(&(self.as_u128() as u32).to_le_bytes())
+    }
+}
+
+/// Variable-size test record, invalid iff non-empty and the first byte is 0xff.
+struct LRec(Vec<u8>);
+impl TryFrom<Bytes> for LRec {
+    type Error = BadRec;
+    fn try_from(b: Bytes) -> Result<Self, BadRec> {
+        if b.first() == Some(&0xff) { Err(BadRec) } else { Ok(LRec(b.to_vec())) }
+    }
+}
+
+fn upstream(spec: &str) -> Vec<Result<Bytes, BoxError>> {
+    if spec == "." {
+        return vec![];
+    }
+    spec.split(',')
+        .map(|t| {
+            if t == "!" {
+                Err::<Bytes, BoxError>("verif-upstream".into())
+            } else {
+                Ok(Bytes::from(unhex(t)))
+            }
+        })
+        .collect()
+}
+
+/// Poll `s` by hand until `f` says stop or the stream ends; `Pending` is a harness error (all
+/// upstreams are `stream::iter`).
+fn drain<S: Stream>(s: S, mut f: impl FnMut(Option<S::Item>) -> bool) {
+    let mut s = Box::pin(s);
+    let mut cx = Context::from_waker(futures::task::noop_waker_ref());
+    loop {
+        match s.as_mut().poll_next(&mut cx) {
+            Poll::Pending => panic!("harness: stream returned Pending"),
+            Poll::Ready(item) => {
+                let end = item.is_none();
+                if !f(item) || end {
+                    return;
+                }
+            }
+        }
+    }
+}
+
+fn now<F: Future>(f: F) -> F::Output {
+    let mut f = Box::pin(f);
+    let mut cx = Context::from_waker(futures::task::noop_waker_ref());
+    match f.as_mut().poll(&mut cx) {
+        Poll::Ready(v) => v,
+        Poll::Pending => panic!("harness: future returned Pending"),
+    }
+}
+
+fn trailing(msg: &str) -> Option<String> {
+    let pat = "stream terminated with ";
+    msg.find(pat).map(|i| {
+        let rest = &msg[i + pat.len()..];
+        let end = rest.find(|c: char| !c.is_ascii_digit()).unwrap_or(rest.len());
+        format!("E:trailing:{}", &rest[..end])
+    })
+}
+
+fn err_tag(e: &Error) -> String {
+    let msg = format!("{e} / {e:?}");
+    if let Some(t) = trailing(&msg) {
+        t
+    } else if msg.contains("verif-upstream") {
+        "E:upstream".into()
+    } else if matches!(e, Error::ParseError(_)) {
+        "E:parse".into()
+    } else {
+        format!("E:other:{}", canon(&msg).replace(' ', "_"))
+    }
+}
+
+fn io_tag(e: &io::Error) -> String {
+    let msg = format!("{e} / {e:?}");
+    if let Some(t) = trailing(&msg) {
+        t
+    } else if msg.contains("verif-upstream") {
+        "E:upstream".into()
+    } else if e.kind() == io::ErrorKind::InvalidData {
+        "E:parse".into()
+    } else {
+        format!("E:other:{}", canon(&msg).replace(' ', "_"))
+    }
+}
+
+fn records_single<T: Serializable + RecHex>(chunks: &str) -> String {
+    let mut out = vec![];
+    drain(SingleRecordStream::<T, _>::new(stream::iter(upstream(chunks))), |item| match item {
+        None => {
+            out.push("end".to_string());
+            false
+        }
+        Some(Ok(r)) => {
+            out.push(r.rec_hex());
+            true
+        }
+        Some(Err(e)) => {
+            out.push(err_tag(&e));
+            false
+        }
+    });
+    out.join(" ")
+}
+
+fn records_batch<T: Serializable + RecHex>(chunks: &str) -> String {
+    let mut out = vec![];
+    drain(RecordsStream::<T, _>::new(stream::iter(upstream(chunks))), |item| match item {
+        None => {
+            out.push("end".to_string());
+            false
+        }
+        Some(Ok(rs)) => {
+            out.push(format!("[{}]", rs.iter().map(RecHex::rec_hex).collect::<Vec<_>>().join("+")));
+            true
+        }
+        Some(Err(e)) => {
+            out.push(err_tag(&e));
+            false
+        }
+    });
+    out.join(" ")
+}
+
+fn records<T: Serializable + RecHex>(mode: &str, chunks: &str) -> String {
+    match mode {
+        "single" => records_single::<T>(chunks),
+        "batch" => records_batch::<T>(chunks),
+        _ => panic!("harness: unknown mode {mode}"),
+    }
+}
+
+fn chunk_debug<K: std::fmt::Debug>(c: &K) -> (String, String) {
+    // `Chunk { chunk_type: Partial(2), data: [1, 2, 0] }`
+    let s = format!("{c:?}");
+    let ct = if s.contains("chunk_type: Full") {
+        "F".to_string()
+    } else {
+        let pat = "chunk_type: Partial(";
+        let i = s.find(pat).expect("harness: unexpected Chunk debug format") + pat.len();
+        let rest = &s[i..];
+        format!("P{}", &rest[..rest.find(')').unwrap()])
+    };
+    let pat = "data: ";
+    let i = s.find(pat).unwrap() + pat.len();
+    let data = s[i..s.len() - 2]
+        .trim_matches(|c| c == '[' || c == ']')
+        .split(", ")
+        .filter(|x| !x.is_empty())
+        .collect::<Vec<_>>()
+        .join("+");
+    (ct, if data.is_empty() { "-".into() } else { data })
+}
+
+fn join_u32(v: &[u32]) -> String {
+    if v.is_empty() { "-".into() } else { v.iter().map(|x| x.to_string()).collect::<Vec<_>>().join("+") }
+}
+
+fn slice_n<const N: usize>(n: usize) -> String {
+    let input: Vec<u32> = (1..=n as u32).collect();
+    let idxs = std::cell::RefCell::new(vec![]);
+    let mut out = vec![];
+    let mut flat: Vec<u32> = vec![];
+    drain(
+        process_slice_by_chunks::<u32, _, _, _, N>(&input, |idx, chunk: ChunkData<'_, u32, N>| {
+            idxs.borrow_mut().push(idx);
+            let v = chunk.to_vec();
+            async move { Ok::<_, Error>(v) }
+        }),
+        |item| {
+            if let Some(fut) = item {
+                let chunk = now(fut).unwrap();
+                let (ct, data) = chunk_debug(&chunk);
+                out.push(format!("{}:{ct}:{data}", idxs.borrow().last().unwrap()));
+                flat.extend(chunk);
+            }
+            true
+        },
+    );
+    out.push("|".into());
+    out.push(format!("flat={}", join_u32(&flat)));
+    out.join(" ")
+}
+
+fn stream_chunks_n<const N: usize>(items: &str) -> String {
+    let input: Vec<Result<u32, Error>> = if items == "." {
+        vec![]
+    } else {
+        items.split(',').map(|t| if t == "!" { Err(Error::Internal) } else { Ok(t.parse().unwrap()) }).collect()
+    };
+    let idxs = std::cell::RefCell::new(vec![]);
+    let mut out = vec![];
+    let mut polls_after_end = 0;
+    let mut st = Box::pin(process_stream_by_chunks::<_, u32, Vec<u32>, _, _, _, N>(
+        stream::iter(input),
+        Vec::new(),
+        |idx, chunk: Box<[u32; N]>| {
+            idxs.borrow_mut().push(idx);
+            let v = chunk.to_vec();
+            async move { Ok::<_, Error>(v) }
+        },
+    ));
+    let mut cx = Context::from_waker(futures::task::noop_waker_ref());
+    loop {
+        match st.as_mut().poll_next(&mut cx) {
+            Poll::Pending => panic!("harness: stream returned Pending"),
+            Poll::Ready(None) => {
+                // fused: polling again must keep answering None
+                polls_after_end += 1;
+                if polls_after_end == 2 {
+                    break;
+                }
+            }
+            Poll::Ready(Some(fut)) => {
+                assert_eq!(polls_after_end, 0, "item after end of stream");
+                match now(fut) {
+                    Ok(chunk) => {
+                        let (ct, data) = chunk_debug(&chunk);
+                        out.push(format!("{}:{ct}:{data}", idxs.borrow().last().unwrap()));
+                    }
+                    Err(_) => out.push("E".into()),
+                }
+            }
+        }
+    }
+    out.join(" ")
+}
+
+fn unpack_nm<const N: usize, const M: usize>(ct: &str, datalen: usize) -> String {
+    // build the chunk through the public API: a slice of N (full) or k < N (partial) records whose
+    // processing function returns `datalen` sub-chunk payloads
+    let n = match ct {
+        "F" => N,
+        p => p[1..].parse::<usize>().unwrap(),
+    };
+    assert!(n >= 1 && n <= N, "harness: chunk type {ct} is not producible for N = {N}");
+    let input: Vec<u32> = vec![0; n];
+    let mut res = String::new();
+    drain(
+        process_slice_by_chunks::<u32, _, _, _, N>(&input, |_idx, _chunk: ChunkData<'_, u32, N>| async move {
+            Ok::<_, Error>((0..datalen as u32).collect::<Vec<u32>>())
+        }),
+        |item| {
+            if let Some(fut) = item {
+                let chunk = now(fut).unwrap();
+                let subs = chunk.unpack::<M>();
+                let mut out = vec!["ok".to_string()];
+                for s in &subs {
+                    let (ct, data) = chunk_debug(s);
+                    out.push(format!("{ct}:{data}"));
+                }
+                res = out.join(" ");
+            }
+            true
+        },
+    );
+    res
+}
+
+fn flatten(lists: &str) -> String {
+    let input: Vec<Result<Vec<u32>, Error>> = if lists == "." {
+        vec![]
+    } else {
+        lists
+            .split(',')
+            .map(|t| match t {
+                "!" => Err(Error::Internal),
+                "-" => Ok(vec![]),
+                l => Ok(l.split('+').map(|x| x.parse().unwrap()).collect()),
+            })
+            .collect()
+    };
+    let mut out = vec![];
+    let mut st = Box::pin(stream::iter(input).try_flatten_iters());
+    let mut cx = Context::from_waker(futures::task::noop_waker_ref());
+    let mut ended = 0;
+    loop {
+        match st.as_mut().poll_next(&mut cx) {
+            Poll::Pending => panic!("harness: stream returned Pending"),
+            Poll::Ready(None) => {
+                ended += 1;
+                if ended == 2 {
+                    break;
+                }
+            }
+            Poll::Ready(Some(item)) => {
+                assert_eq!(ended, 0, "item after end of stream");
+                match item {
+                    Ok(x) => out.push(x.to_string()),
+                    Err(_) => out.push("E".into()),
+                }
+            }
+        }
+    }
+    out.push("end".into());
+    out.join(" ")
+}
+
+fn ld(chunks: &str) -> String {
+    let mut out = vec![];
+    drain(LengthDelimitedStream::<LRec, _>::new(stream::iter(upstream(chunks))), |item| match item {
+        None => {
+            out.push("end".to_string());
+            false
+        }
+        Some(Ok(rs)) => {
+            out.push(format!("[{}]", rs.iter().map(|r| hex(&r.0)).collect::<Vec<_>>().join("+")));
+            true
+        }
+        Some(Err(e)) => {
+            out.push(io_tag(&e));
+            false
+        }
+    });
+    out.join(" ")
+}
+
+fn buffered(sz: usize, chunks: &str) -> String {
+    let mut out = vec![];
+    drain(
+        BufferedBytesStream::new(stream::iter(upstream(chunks)), NonZeroUsize::new(sz).unwrap()),
+        |item| match item {
+            None => {
+                out.push("end".to_string());
+                false
+            }
+            Some(Ok(b)) => {
+                out.push(hex(&b));
+                true
+            }
+            Some(Err(e)) => {
+                let msg = format!("{e}");
+                out.push(if msg.contains("verif-upstream") { "E:upstream".into() } else { format!("E:other:{}", msg.replace(' ', "_")) });
+                false
+            }
+        },
+    );
+    out.join(" ")
+}
+
+pub fn exec(req: &str) -> String {
+    let t: Vec<&str> = req.split(' ').collect();
+    match t[0] {
+        "c17.records" => match t[2] {
+            "r1" => records::<Rec<U1>>(t[1], t[3]),
+            "r2" => records::<Rec<U2>>(t[1], t[3]),
+            "r3" => records::<Rec<U3>>(t[1], t[3]),
+            "r4" => records::<Rec<U4>>(t[1], t[3]),
+            "r5" => records::<Rec<U5>>(t[1], t[3]),
+            "r6" => records::<Rec<U6>>(t[1], t[3]),
+            "r7" => records::<Rec<U7>>(t[1], t[3]),
+            "r8" => records::<Rec<U8>>(t[1], t[3]),
+            "fp31" => records::<Fp31>(t[1], t[3]),
+            "fp32" => records::<Fp32BitPrime>(t[1], t[3]),
+            ty => panic!("harness: unknown record type {ty}"),
+        },
+        "c17.ld" => ld(t[1]),
+        "c17.buffered" => buffered(t[1].parse().unwrap(), t[2]),
+        "c17.slice" => {
+            let n: usize = t[2].parse().unwrap();
+            match t[1] {
+                "1" => slice_n::<1>(n),
+                "2" => slice_n::<2>(n),
+                "3" => slice_n::<3>(n),
+                "4" => slice_n::<4>(n),
+                "8" => slice_n::<8>(n),
+                w => panic!("harness: unsupported chunk width {w}"),
+            }
+        }
+        "c17.streamchunks" => match t[1] {
+            "1" => stream_chunks_n::<1>(t[2]),
+            "2" => stream_chunks_n::<2>(t[2]),
+            "3" => stream_chunks_n::<3>(t[2]),
+            "4" => stream_chunks_n::<4>(t[2]),
+            "8" => stream_chunks_n::<8>(t[2]),
+            w => panic!("harness: unsupported chunk width {w}"),
+        },
+        "c17.unpack" => {
+            let dl: usize = t[4].parse().unwrap();
+            match (t[1], t[2]) {
+                ("1", "1") => unpack_nm::<1, 1>(t[3], dl),
+                ("4", "1") => unpack_nm::<4, 1>(t[3], dl),
+                ("4", "2") => unpack_nm::<4, 2>(t[3], dl),
+                ("4", "4") => unpack_nm::<4, 4>(t[3], dl),
+                ("4", "3") => unpack_nm::<4, 3>(t[3], dl),
+                ("6", "2") => unpack_nm::<6, 2>(t[3], dl),
+                ("6", "3") => unpack_nm::<6, 3>(t[3], dl),
+                ("8", "2") => unpack_nm::<8, 2>(t[3], dl),
+                ("8", "4") => unpack_nm::<8, 4>(t[3], dl),
+                (n, m) => panic!("harness: unsupported unpack {n}/{m}"),
+            }
+        }
+        "c17.flatten" => flatten(t[1]),
+        "c17.fixed" => {
+            let (len, n): (usize, usize) = (t[1].parse().unwrap(), t[2].parse().unwrap());
+            let mut count = 0;
+            drain(FixedLength::new(stream::iter(0..n), len), |item| {
+                if item.is_some() {
+                    count += 1;
+                }
+                true
+            });
+            format!("ok {count}")
+        }
+        _ => panic!("harness: unknown request {req}"),
+    }
+}
+
+// ------------------------------------------------------------------------------------------ generators
+
+/// all ways to cut `bytes` into non-empty consecutive pieces: bit i of `mask` set = cut after byte i
+fn chunking(bytes: &[u8], mask: usize, empties: usize, rng: &mut Rng) -> String {
+    let mut parts: Vec<Vec<u8>> = vec![];
+    let mut cur: Vec<u8> = vec![];
+    for (i, b) in bytes.iter().enumerate() {
+        cur.push(*b);
+        if i + 1 == bytes.len() || mask >> i & 1 == 1 {
+            parts.push(std::mem::take(&mut cur));
+        }
+    }
+    let mut toks: Vec<String> = vec![];
+    match empties {
+        0 => toks = parts.iter().map(|p| hex(p)).collect(),
+        // an empty chunk at every boundary (and both ends)
+        1 => {
+            toks.push("-".into());
+            for p in &parts {
+                toks.push(hex(p));
+                toks.push("-".into());
+            }
+        }
+        // empty chunks at random places
+        _ => {
+            for p in &parts {
+                while rng.below(3) == 0 {
+                    toks.push("-".into());
+                }
+                toks.push(hex(p));
+            }
+            while rng.below(3) == 0 {
+                toks.push("-".into());
+            }
+        }
+    }
+    if toks.is_empty() { ".".into() } else { toks.join(",") }
+}
+
+fn random_chunking(bytes: &[u8], rng: &mut Rng, max_chunk: usize, with_err: bool) -> String {
+    let mut toks: Vec<String> = vec![];
+    let mut i = 0;
+    let err_at = if with_err { Some(rng.usize_below(bytes.len() + 1)) } else { None };
+    let mut err_done = false;
+    while i < bytes.len() {
+        if let Some(e) = err_at {
+            if !err_done && i >= e {
+                toks.push("!".into());
+                err_done = true;
+            }
+        }
+        if rng.below(8) == 0 {
+            toks.push("-".into());
+            continue;
+        }
+        let mut k = 1 + rng.usize_below(max_chunk);
+        if let Some(e) = err_at {
+            if !err_done && i < e {
+                k = k.min(e - i);
+            }
+        }
+        let k = k.min(bytes.len() - i);
+        toks.push(hex(&bytes[i..i + k]));
+        i += k;
+    }
+    if with_err && !err_done {
+        toks.push("!".into());
+    }
+    if toks.is_empty() { ".".into() } else { toks.join(",") }
+}
+
+fn encode_ld(records: &[Vec<u8>]) -> Vec<u8> {
+    let mut v = vec![];
+    for r in records {
+        v.extend_from_slice(&(r.len() as u16).to_le_bytes());
+        v.extend_from_slice(r);
+    }
+    v
+}
+
+fn gen_streams(rng: &mut Rng, thorough: bool) -> Vec<String> {
+    let mut out: Vec<String> = vec![];
+    // ---- boundaries first
+    for s in [
+        "c17.records single r1 .", "c17.records batch r1 .", "c17.records single r2 -", "c17.records batch r2 -,-",
+        "c17.records single r2 01", "c17.records batch r2 01", "c17.records batch r2 -,01,-", "c17.records single r1 !",
+        "c17.records batch r3 010203,!", "c17.records batch r3 0102,!,03", "c17.records single r3 0102,!,03",
+        "c17.records batch r2 0102ff04,0506", "c17.records batch r2 0102,ff04,0506", "c17.records single r2 0102,ff04,0506",
+        "c17.records batch r1 ff", "c17.records batch fp31 001e1f00", "c17.records single fp31 00,1e,1f,00",
+        "c17.records batch fp32 fafffffffbffffff", "c17.records single fp32 fafffffffbffffff", "c17.records batch fp32 faffff,fffbffffff,01",
+        "c17.ld .", "c17.ld -", "c17.ld 00", "c17.ld 0000", "c17.ld 00,00", "c17.ld 0000,0000,0000", "c17.ld 000000", "c17.ld 0100", "c17.ld 0100,aa",
+        "c17.ld 01,00,aa", "c17.ld 0100aa0000", "c17.ld 0100aa00", "c17.ld 0200aa", "c17.ld 0200aa,!", "c17.ld !", "c17.ld 0100ff", "c17.ld 0100aa0100ff0100bb",
+        "c17.ld 0100aa,0100ff,0100bb", "c17.ld 0100aa0100,ff0100bb", "c17.ld 0000,0100ff", "c17.ld 00000100ff",
+        "c17.buffered 1 .", "c17.buffered 3 -", "c17.buffered 3 0102", "c17.buffered 3 010203", "c17.buffered 3 01020304", "c17.buffered 3 01,02,03,04,05,06",
+        "c17.buffered 3 0102,!", "c17.buffered 3 01020304,!,05", "c17.buffered 2 -,-,01,-",
+    ] {
+        out.push(s.to_string());
+    }
+    // ---- exhaustive chunkings of short streams
+    let nmax = if thorough { 14 } else { 10 };
+    for n in 0..=nmax {
+        let plain: Vec<u8> = (1..=n as u8).collect();
+        let nmasks = if n == 0 { 1 } else { 1usize << (n - 1) };
+        for mask in 0..nmasks {
+            let variants: &[usize] = if n <= 6 { &[0, 1, 2] } else if mask % 2 == 0 { &[0, 1] } else { &[0, 2] };
+            for &e in variants {
+                let c = chunking(&plain, mask, e, rng);
+                for sz in 1..=8usize {
+                    if n > 10 && !(sz <= 3 || sz == 8) {
+                        continue;
+                    }
+                    out.push(format!("c17.records single r{sz} {c}"));
+                    out.push(format!("c17.records batch r{sz} {c}"));
+                }
+                if n <= 8 || mask % 4 == 0 {
+                    for sz in [1usize, 2, 3, 4, 8] {
+                        out.push(format!("c17.buffered {sz} {c}"));
+                    }
+                }
+            }
+            // one invalid record at a position derived from the mask
+            if n >= 1 && n <= 9 {
+                let mut bad = plain.clone();
+                bad[mask % n] = 0xff;
+                let c = chunking(&bad, mask, mask % 3, rng);
+                for sz in 1..=4usize {
+                    out.push(format!("c17.records single r{sz} {c}"));
+                    out.push(format!("c17.records batch r{sz} {c}"));
+                }
+            }
+        }
+    }
+    // length-delimited: every encoding of small length lists, every truncation, every chunking
+    let lens: Vec<Vec<usize>> = vec![
+        vec![0], vec![1], vec![2], vec![3], vec![0, 0], vec![0, 1], vec![1, 0], vec![1, 1], vec![2, 1], vec![0, 0, 0],
+        vec![1, 0, 1], vec![0, 2, 0], vec![4], vec![2, 2], vec![1, 1, 1], vec![0, 0, 0, 0], vec![5, 0], vec![0, 6], vec![3, 3],
+        vec![1, 2, 1], vec![0, 1, 0, 1],
+    ];
+    for ls in &lens {
+        let recs: Vec<Vec<u8>> = ls.iter().enumerate().map(|(i, l)| (0..*l).map(|j| (0x10 * (i + 1) + j) as u8).collect()).collect();
+        let full = encode_ld(&recs);
+        if full.len() > nmax {
+            continue;
+        }
+        for cutoff in 0..=full.len() {
+            let bytes = &full[..cutoff];
+            let nmasks = if bytes.is_empty() { 1 } else { 1usize << (bytes.len() - 1) };
+            for mask in 0..nmasks {
+                let e = if bytes.len() <= 6 { mask % 3 } else if mask % 5 == 0 { 1 + mask % 2 } else { 0 };
+                out.push(format!("c17.ld {}", chunking(bytes, mask, e, rng)));
+                if bytes.len() <= 6 && e != 0 {
+                    out.push(format!("c17.ld {}", chunking(bytes, mask, 0, rng)));
+                }
+            }
+        }
+        // an invalid record in each position
+        for bad in 0..recs.len() {
+            if recs[bad].is_empty() {
+                continue;
+            }
+            let mut r2 = recs.clone();
+            r2[bad][0] = 0xff;
+            let bytes = encode_ld(&r2);
+            let nmasks = 1usize << (bytes.len() - 1);
+            for mask in 0..nmasks {
+                out.push(format!("c17.ld {}", chunking(&bytes, mask, mask % 3, rng)));
+            }
+        }
+    }
+    // ---- longer streams, random chunkings
+    let reps = if thorough { 3000 } else { 300 };
+    for k in 0..reps {
+        // variable-length records with the interesting lengths
+        let nrec = 1 + rng.usize_below(7);
+        let mut recs: Vec<Vec<u8>> = (0..nrec)
+            .map(|_| {
+                let l = *rng.pick(&[0usize, 0, 1, 2, 255, 256, 300, 3, 80]);
+                let mut r = rng.bytes(l);
+                if !r.is_empty() && r[0] == 0xff {
+                    r[0] = 0xfe;
+                }
+                r
+            })
+            .collect();
+        if k % 7 == 0 {
+            let i = rng.usize_below(nrec);
+            if !recs[i].is_empty() {
+                recs[i][0] = 0xff;
+            }
+        }
+        let mut bytes = encode_ld(&recs);
+        if k % 3 == 0 {
+            let cut = rng.usize_below(bytes.len() + 1);
+            bytes.truncate(cut);
+        }
+        let max_chunk = *rng.pick(&[1usize, 2, 3, 7, 64, 255, 256, 257, 400, 1000]);
+        out.push(format!("c17.ld {}", random_chunking(&bytes, rng, max_chunk, k % 5 == 0)));
+        // fixed-size records
+        let n = rng.usize_below(200);
+        let mut bytes = rng.bytes(n);
+        for b in bytes.iter_mut() {
+            if *b == 0xff && k % 4 != 0 {
+                *b = 0xfe;
+            }
+        }
+        let sz = 1 + rng.usize_below(8);
+        let mc = *rng.pick(&[1usize, 2, 5, 8, 16, 33, 64, 200]);
+        let c = random_chunking(&bytes, rng, mc, k % 6 == 0);
+        out.push(format!("c17.records single r{sz} {c}"));
+        out.push(format!("c17.records batch r{sz} {c}"));
+        out.push(format!("c17.buffered {} {c}", 1 + rng.usize_below(40)));
+        // real field types: bytes around the primes
+        let mut fb: Vec<u8> = vec![];
+        for _ in 0..rng.usize_below(12) {
+            let v = *rng.pick(&[0u32, 1, 30, 31, 4_294_967_290, 4_294_967_291, 4_294_967_295, 7]);
+            fb.extend_from_slice(&v.to_le_bytes());
+        }
+        let mc = *rng.pick(&[1usize, 3, 4, 9]);
+        let c = random_chunking(&fb, rng, mc, false);
+        out.push(format!("c17.records batch fp32 {c}"));
+        out.push(format!("c17.records single fp32 {c}"));
+        out.push(format!("c17.records batch fp31 {c}"));
+        out.push(format!("c17.records single fp31 {c}"));
+    }
+    out
+}
+
+fn gen_chunks(rng: &mut Rng, thorough: bool) -> Vec<String> {
+    let mut out = vec![];
+    for n_width in [1usize, 2, 3, 4, 8] {
+        for n in 0..=(if thorough { 64 } else { 26 }) {
+            out.push(format!("c17.slice {n_width} {n}"));
+        }
+        // streams of items with an upstream error at every position (and none)
+        for n in 0..=(if thorough { 20 } else { 11 }) {
+            let items: Vec<String> = (1..=n).map(|x| x.to_string()).collect();
+            out.push(format!("c17.streamchunks {n_width} {}", if items.is_empty() { ".".to_string() } else { items.join(",") }));
+            for e in 0..=n {
+                let mut it = items.clone();
+                it.insert(e, "!".into());
+                out.push(format!("c17.streamchunks {n_width} {}", it.join(",")));
+            }
+        }
+    }
+    for (n, m) in [(1usize, 1usize), (4, 1), (4, 2), (4, 4), (4, 3), (6, 2), (6, 3), (8, 2), (8, 4)] {
+        for dl in 0..=(n / m + 2) {
+            out.push(format!("c17.unpack {n} {m} F {dl}"));
+            for k in 1..n {
+                out.push(format!("c17.unpack {n} {m} P{k} {dl}"));
+            }
+        }
+    }
+    // flatten: all sequences of up to 4 items over {[], [1], [2,3], !}
+    let alphabet = ["-", "1", "2+3", "!"];
+    out.push("c17.flatten .".into());
+    for len in 1..=4usize {
+        for code in 0..alphabet.len().pow(len as u32) {
+            let mut c = code;
+            let mut its = vec![];
+            for _ in 0..len {
+                its.push(alphabet[c % 4]);
+                c /= 4;
+            }
+            out.push(format!("c17.flatten {}", its.join(",")));
+        }
+    }
+    for _ in 0..(if thorough { 500 } else { 60 }) {
+        let n = 1 + rng.usize_below(10);
+        let its: Vec<String> = (0..n)
+            .map(|_| match rng.below(8) {
+                0 => "!".to_string(),
+                1 => "-".to_string(),
+                _ => (0..1 + rng.usize_below(5)).map(|_| rng.below(100).to_string()).collect::<Vec<_>>().join("+"),
+            })
+            .collect();
+        out.push(format!("c17.flatten {}", its.join(",")));
+    }
+    for len in 0..=4usize {
+        for n in 0..=4usize {
+            out.push(format!("c17.fixed {len} {n}"));
+        }
+    }
+    out
+}
+
+#[test]
+fn verif_c17_streams() {
+    run_suite("c17_streams", gen_streams, exec);
+}
+
+#[test]
+fn verif_c17_chunks() {
+    run_suite("c17_chunks", gen_chunks, exec);
+}
